@@ -460,7 +460,7 @@ def fuzz_targets():
 def clauses():
     q = {"ConvexPolyhedron": 220, "Polyhedron": 120, "ConvexSpheropolyhedron": 120, "Polygon": 900, "ConvexPolygon": 250, "ConvexSpheropolygon": 200,
          "Circle": 120, "Ellipse": 120, "Sphere": 120, "Ellipsoid": 120}
-    return [Clause("covariance_" + k, _case(k), _run, quick=q[k], thorough=q[k] * 25, rule="x vs g.x for " + k,
+    return [Clause("covariance_" + k, _case(k), _run, quick=q[k] * 2, thorough=q[k] * 40, rule="x vs g.x for " + k,
                    floors={"scaled>=10x": 0.1}) for k in KINDS] + [
         Clause("lattice_extrusion", _ext_case(), _lattice_extrusion, quick=1500, thorough=30000,
                rule="prisms over integer polygons with (non-convex) cap faces vs their scaled/rotated copies and the exact centroid/membership",
